@@ -24,6 +24,39 @@ def jobs_diags(tier):
         for np in (0, 1, 2):
             out.append({"name": "ranges-l%d-p%d" % (nl, np), "func": "VerifHarness_Ranges", "params": {"nlines": nl, "npos": np}, "unwind": 60, "reach": ["end"]})
     out.append({"name": "expand", "func": "VerifHarness_Expand", "params": {}, "unwind": 20, "reach": ["end"]})
+    # (a) NewPositionRange: mode 0 plain (value spelled by its line), mode 1 free (value is any text)
+    def npr(mode, nl, ll, line, col, mincol, vlen):
+        out.append({"name": "newpos-m%d-l%d-w%d-at%d.%d-min%d-v%d" % (mode, nl, ll, line, col, mincol, vlen), "func": "VerifHarness_NewPositionRange",
+                    "params": {"mode": mode, "nlines": nl, "linelen": ll, "line": line, "col": col, "mincol": mincol, "vlen": vlen}, "unwind": 60, "reach": ["end"]})
+    npr(0, 2, 3, 1, 2, 1, 2)
+    npr(0, 3, 3, 2, 1, 3, 3)
+    npr(1, 2, 3, 1, 2, 1, 1)
+    npr(1, 2, 3, 2, 4, 3, 2)
+    npr(1, 3, 2, 1, 1, 1, 2)
+    if tier != "quick":
+        for line in (1, 2, 3):
+            for col in (1, 2, 3, 4):
+                for mincol in (1, 3):
+                    for vlen in (1, 2, 3):
+                        npr(1, 3, 3, line, col, mincol, vlen)
+                        if col - 1 + vlen <= 3:
+                            npr(0, 3, 3, line, col, mincol, vlen)
+    return out
+
+KEYS = ["record", "alert", "expr", "for", "keep_firing_for", "labels", "annotations", "zz"]
+
+def jobs_parser(tier):
+    out = []
+    combos = [(0, 2, 5), (1, 2, 3), (1, 2, 6), (0, 2, 3), (0, 1, 2), (2, 7, 7), (0, 0, 2), (1, 2, 5), (7, 7, 7), (2, 2, 0), (5, 0, 2), (1, 6, 2)]
+    if tier != "quick":
+        combos = [(a, b, c) for a in range(8) for b in range(8) for c in range(8) if len({a, b, c} & {0, 1, 2}) >= 1]
+    for (a, b, c) in combos:
+        for empty1 in (0, 1):
+            for map2 in (0, 1):
+                if tier == "quick" and empty1 and not map2 and (a + b + c) % 2:
+                    continue
+                out.append({"name": "parserule-%s-%s-%s-e%d-m%d" % (KEYS[a], KEYS[b], KEYS[c], empty1, map2), "func": "VerifHarness_ParseRule",
+                            "params": {"k0": a, "k1": b, "k2": c, "empty1": empty1, "map2": map2}, "unwind": 60, "reach": ["end"]})
     return out
 
 def jobs_reporter(tier):
@@ -74,6 +107,7 @@ PROP = {
     "level_note": "This is kernel totality, not a claim about arbitrary bytes: the quantifier of C02 is over file contents and the solver sees reports and nodes. File access is cut; encoders (encoding/json, encoding/xml, fmt.Fprint*) are models that accept anything; in package reporter diags.InjectDiagnostics is cut (it is executed in package diags). Part (a) (parser kernels on symbolic yaml.Node trees) is covered only for the position kernels named in notes/C02.md.",
     "runs": [
         {"pkg": "./internal/diags", "harness": ["harness/C02/diags.go"], "intmode": True, "jobs": jobs_diags},
+        {"pkg": "./internal/parser", "harness": ["harness/C02/parser.go"], "intmode": True, "jobs": jobs_parser},
         {"pkg": "./internal/reporter", "harness": ["harness/C02/reporter.go"], "intmode": True, "jobs": jobs_reporter},
         {"pkg": "./internal/config", "harness": ["harness/C02/routing.go"], "intmode": True, "jobs": jobs_routing},
         {"pkg": "./internal/checks", "harness": ["harness/C18/expand.go", "harness/C02/checks.go"], "intmode": True, "jobs": jobs_checks},
